@@ -1362,12 +1362,14 @@ class ProcessPoolExecutor(Executor):
 
         # To reduce the risk of opening too many files, remove references to
         # objects that use file descriptors.
-        self._executor_manager_thread = None
-        self._executor_manager_thread_wakeup = None
         if executor_manager_thread is None or wait:
             # When not waiting for it, the executor manager thread is still
             # running: it needs these objects to replace a worker that exits
-            # (time-out, memory leak guard) while some work is still pending.
+            # (time-out, memory leak guard) while some work is still pending,
+            # and a later call to shutdown must still be able to wake it up
+            # (kill_workers=True) and to join it (wait=True).
+            self._executor_manager_thread = None
+            self._executor_manager_thread_wakeup = None
             self._call_queue = None
             self._result_queue = None
             self._processes_management_lock = None
